@@ -106,11 +106,15 @@ func (t *Topic) GetChannel(channelName string) *Channel {
 
 	if isNew {
 		verif.Yield("getchannel.beforeHandshake", vt(t))
-		// update messagePump state
-		select {
-		case t.channelUpdateChan <- 1:
-		case <-t.exitChan:
-		}
+	}
+	// update messagePump state, also when the channel was already in the
+	// map: whoever put it there may not have told the pump yet, and our
+	// caller is about to rely on the channel receiving what is published
+	select {
+	case t.channelUpdateChan <- 1:
+	case <-t.exitChan:
+	}
+	if isNew {
 		verif.Ev("CCreated", "c", vc(channel), "t", vt(t))
 	}
 
